@@ -383,6 +383,7 @@ fn main() {
             match pos[0] {
                 "tree-exh" => gen::tree_exh(&mut s, p(1), p(2), p(3), pos.get(4) == Some(&"b")),
                 "tree-rand" => gen::tree_rand(&mut s, p(1) as u64, seed, p(2)),
+                "tree-perm" => gen::tree_perm(&mut s, p(1), p(2), pos.get(3).map(|x| x.contains('h')).unwrap_or(false), pos.get(3).map(|x| x.contains('u')).unwrap_or(false)),
                 "pair-exh" => gen::pair_exh(&mut s, p(1), p(2)),
                 "pair-rand" => gen::pair_rand(&mut s, p(1) as u64, seed, p(2)),
                 "list-exh" => gen::list_exh(&mut s, p(1) as u32, p(2)),
